@@ -518,3 +518,36 @@ def loop_quant_facts(fn: ast.AST, node: ast.AST) -> set[tuple[str, bool]]:
                                 out.add(qc)
         n = par
     return out
+
+
+def subst_chain_aliases(fn: ast.AST, text: str) -> str:
+    """`text` (an expression) with every local of `fn` that is stored exactly once, by `x = <attribute chain>`, replaced by
+    that chain (`default_value = d.default_value` ... `default_value is None`  ->  `d.default_value is None`)."""
+    stores: dict[str, int] = {}
+    for n in walk_local(fn):
+        if isinstance(n, ast.Name) and isinstance(n.ctx, (ast.Store, ast.Del)):
+            stores[n.id] = stores.get(n.id, 0) + 1
+    alias: dict[str, ast.expr] = {}
+    for st in walk_local(fn):
+        if isinstance(st, ast.Assign) and len(st.targets) == 1 and isinstance(st.targets[0], ast.Name) and stores.get(st.targets[0].id) == 1:
+            v = st.value
+            while isinstance(v, ast.Attribute):
+                v = v.value
+            if isinstance(st.value, ast.Attribute) and isinstance(v, ast.Name):
+                alias[st.targets[0].id] = st.value
+    if not alias:
+        return text
+    try:
+        e = ast.parse(text, mode="eval")
+    except SyntaxError:
+        return text
+
+    class T(ast.NodeTransformer):
+        def visit_Name(self, node: ast.Name):
+            if isinstance(node.ctx, ast.Load) and node.id in alias:
+                import copy
+
+                return copy.deepcopy(alias[node.id])
+            return node
+
+    return ast.unparse(T().visit(e))
